@@ -59,7 +59,12 @@ func vMkOwnerWorld(kind int) *vOwnerWorld {
 }
 
 // TO2.ProveDevice against the real owner responder.
-func VerifC02_SetupDeviceSpec() {
+func VerifC02_SetupDeviceSpec() { vSetupDeviceSpec(false) }
+
+// C10: the same token grammar must never crash the owner responder
+func VerifC10_TO2ProveDevice() { vSetupDeviceSpec(true) }
+
+func vSetupDeviceSpec(nopanic bool) {
 	verif.Expect("served")
 	verif.Expect("rejected")
 	verif.Bound("C02", "owner/device/manufacturer key kind in {P-256, P-384}; voucher with 1 entry; session: GUID present/absent, ProveDevice nonce present/absent, key-exchange session present/absent; EAT: payload present/null; nonce claim absent / 16 symbolic bytes / integer; UEID claim absent / 17 symbolic bytes / 16 bytes / integer; FDO claim absent / [bytes 1..2] / [] / [int] / [b,b] / bytes; unprotected SetupDevice nonce present/absent; protected alg in {ES256, ES384, unregistered}; signature symbolic; at most 2 (quick) / 3 (thorough) structural deviations from the honest shape per path")
@@ -145,7 +150,7 @@ func VerifC02_SetupDeviceSpec() {
 
 	var rt uint8
 	var resp any
-	panicked, _ := verif.Caught(func() { rt, resp = w.srv.Respond(context.Background(), protocol.TO2ProveDeviceMsgType, bytes.NewReader(wire)) })
+	panicked := vRun(nopanic, func() { rt, resp = w.srv.Respond(context.Background(), protocol.TO2ProveDeviceMsgType, bytes.NewReader(wire)) })
 	served := !panicked && rt == protocol.TO2SetupDeviceMsgType
 	if !served && len(w.sess.setParam) == 0 {
 		verif.Reached("rejected")
